@@ -94,7 +94,8 @@ Finish ==
                     ELSE <<"firstdiff", d, IF d > 0 /\ d <= Len(hevs) THEN hevs[d] ELSE "-", IF d > 0 /\ d <= Len(got) THEN got[d] ELSE "-",
                            "res", okRes, "inexact", inex, "steps", Len(hevs), Len(got)>>>>)
     /\ LET got == [k \in 1..Len(Tr[idx].hevs) |-> <<Tr[idx].hevs[k][1], Tr[idx].hevs[k][2], Tr[idx].hevs[k][3], Tr[idx].hevs[k][4], Tr[idx].hevs[k][5]>>]
-       IN  FirstDiff(hevs, got, 1) = 0 \/ PrintT(<<"NOTE", idx, "Bos-Coster steps differ from BosCoster.tla at", FirstDiff(hevs, got, 1)>>)
+       IN  IF FirstDiff(hevs, got, 1) = 0 THEN TRUE
+           ELSE PrintT(<<"NOTE", idx, "Bos-Coster steps differ from BosCoster.tla at", FirstDiff(hevs, got, 1)>>)
     /\ pc' = "checked"
     /\ UNCHANGED <<scalars, points, heap, size, limbSize, extended, count, max1, max2, hevs, res, idx>>
 
